@@ -29,7 +29,7 @@ VARIABLE beh
 gvars == <<vars, beh>>
 
 Count(S) == Cardinality({n \in DOMAIN beh : beh[n].k \in S})
-Rel == {"CopyConstruct", "MoveConstruct", "CopyAssign", "MoveAssign", "ChainAssign", "MergeRef", "MergeMove"}
+Rel == {"CopyConstruct", "MoveConstruct", "CopyAssign", "MoveAssign", "ChainAssign", "MergeRef", "MergeCRef", "MergeMove"}
 \* an "echo" Mutate makes the object's history equal to that of another live object (e.g. the same op applied to a copy
 \* after it was applied to the original): exactly the calls the equal-history clause feeds on, so they are exempt from MaxMut
 Echo(i, op) == \E s \in Slots \ {i} : slot[s].st = "Live" /\ slot[s].hist = Append(slot[i].hist, Term(op, <<>>))
